@@ -1,6 +1,8 @@
 package main
 
 import (
+	"go/types"
+	"sort"
 	"golang.org/x/tools/go/packages"
 	"fmt"
 	"go/ast"
@@ -273,4 +275,93 @@ func firstPos(b *ssa.BasicBlock) token.Pos {
 		}
 	}
 	return token.NoPos
+}
+
+// ---------------------------------------------------------------------------------------------
+// C06/R7 (= C13/R9) token-enum-vs-character.
+//
+// The lexers keep two kinds of "what am I looking at": the current code point (a rune) and the
+// current token (an enum, js_lexer.T / css_lexer.T). Both are integers, so Go accepts a comparison
+// of a token with a character literal — it compares the enum's ordinal with the character's code,
+// which is never what was meant. The place that re-splits `>=`, `>==`, `>===` after a TypeScript type
+// argument list did exactly that (`lexer.Token == '='`), so `a as Array<number>=== y` was rejected
+// although it is `a === y` with a type assertion added. Rule: no comparison (==, !=, case) between a
+// value of a lexer token type and a character literal, anywhere in the module.
+func tokenVsCharacter(p *Prog, rule string) *RuleResult {
+	r := NewRule(rule, "no value of a lexer token enum (js_lexer.T, css_lexer.T) is compared with a character literal")
+	isTokenType := func(t types.Type) bool {
+		n, ok := t.(*types.Named)
+		if !ok || n.Obj().Pkg() == nil || n.Obj().Name() != "T" {
+			return false
+		}
+		pp := n.Obj().Pkg().Path()
+		return pp == modPath+"/internal/js_lexer" || pp == modPath+"/internal/css_lexer"
+	}
+	isChar := func(e ast.Expr) bool {
+		for {
+			if pe, ok := e.(*ast.ParenExpr); ok {
+				e = pe.X
+				continue
+			}
+			break
+		}
+		bl, ok := e.(*ast.BasicLit)
+		return ok && bl.Kind == token.CHAR
+	}
+	comparisons, cases := 0, 0
+	var paths []string
+	for path := range p.ByPath {
+		paths = append(paths, path)
+	}
+	sort.Strings(paths)
+	for _, path := range paths {
+		pkg := p.ByPath[path]
+		if !strings.HasPrefix(path, modPath) || pkg.TypesInfo == nil {
+			continue
+		}
+		for _, f := range pkg.Syntax {
+			ast.Inspect(f, func(n ast.Node) bool {
+				switch x := n.(type) {
+				case *ast.BinaryExpr:
+					if x.Op != token.EQL && x.Op != token.NEQ {
+						return true
+					}
+					tx, ty := pkg.TypesInfo.TypeOf(x.X), pkg.TypesInfo.TypeOf(x.Y)
+					if tx == nil || ty == nil || (!isTokenType(tx) && !isTokenType(ty)) {
+						return true
+					}
+					comparisons++
+					if isChar(x.X) || isChar(x.Y) {
+						r.Instances++
+						r.Fail(fmt.Sprintf("%s compares a token with a character literal", enclosingFuncName(pkg, f, x.Pos())), p.Pos(x.Pos()), "a lexer token (an enum ordinal) is compared with a character literal (a code point): the test never means what it says — the current character lives in lexer.codePoint")
+					}
+				case *ast.SwitchStmt:
+					if x.Tag == nil {
+						return true
+					}
+					if tt := pkg.TypesInfo.TypeOf(x.Tag); tt == nil || !isTokenType(tt) {
+						return true
+					}
+					for _, cl := range x.Body.List {
+						cc := cl.(*ast.CaseClause)
+						for _, e := range cc.List {
+							cases++
+							if isChar(e) {
+								r.Instances++
+								r.Fail(fmt.Sprintf("%s switches on a token with a character case", enclosingFuncName(pkg, f, e.Pos())), p.Pos(e.Pos()), "a case of a switch over a lexer token is a character literal")
+							}
+						}
+					}
+				}
+				return true
+			})
+		}
+	}
+	r.Instances++
+	if comparisons+cases >= 500 {
+		r.OK("comparisons and switch cases over lexer tokens", true, fmt.Sprintf("%d comparisons and %d switch cases over token values inspected", comparisons, cases))
+	} else {
+		r.Fail("comparisons and switch cases over lexer tokens", "-", fmt.Sprintf("only %d comparisons and %d cases over token values were found (expected hundreds): the rule no longer sees the lexers", comparisons, cases))
+	}
+	return r
 }
